@@ -187,47 +187,48 @@ class Recorder:
     def __init__(self, stream, sizeB, probe=None):
         self.probe = probe
         self.s = stream
-        self.events = [{"e": "open", "size": getattr(stream, "size", None)}]
+        sz = getattr(stream, "size", None)
+        self.events = [{"e": "open", "size": int(sz) if sz is not None else -1}]
         self.sizeB = sizeB
 
     def seek(self, arg, whence=0):
         ret = self.s.seek(arg, whence)
-        self.events.append({"e": "seek", "whence": whence, "arg": arg, "ret": ret})
+        self.events.append({"e": "seek", "whence": whence, "arg": arg, "ret": int(ret)})
 
     def tell(self):
-        self.events.append({"e": "tell", "ret": self.s.tell()})
+        self.events.append({"e": "tell", "ret": int(self.s.tell())})
 
     def _res(self, e, pos0, n, data, extra=None):
-        ev = {"e": e, "pos0": pos0, "n": n, "len": len(data), "runs": decode_byte_runs(data, pos0, self.probe), "tell": self.s.tell()}
+        ev = {"e": e, "pos0": pos0, "n": n, "len": len(data), "runs": decode_byte_runs(data, pos0, self.probe), "tell": int(self.s.tell())}
         if extra:
             ev.update(extra)
         self.events.append(ev)
         return ev
 
     def read(self, n):
-        p = self.s.tell()
+        p = int(self.s.tell())
         return self._res("read", p, n, self.s.read(n))
 
     def peek(self, n):
-        p = self.s.tell()
+        p = int(self.s.tell())
         return self._res("peek", p, n, self.s.peek(n))
 
     def readinto(self, n):
-        p = self.s.tell()
+        p = int(self.s.tell())
         b = bytearray(n)
         k = self.s.readinto(b)
         return self._res("readinto", p, n, bytes(b[:k]))
 
     def readoffset(self, o, n):
         data = self.s.readoffset(o, n)
-        ev = {"e": "readoffset", "o": o, "n": n, "len": len(data), "runs": decode_byte_runs(data, o, self.probe), "tell": self.s.tell()}
+        ev = {"e": "readoffset", "o": o, "n": n, "len": len(data), "runs": decode_byte_runs(data, o, self.probe), "tell": int(self.s.tell())}
         self.events.append(ev)
         return ev
 
     def sectors(self, fn, sector, count, ssize):
         data = fn(sector, count)
         ev = {"e": "sectors", "s": sector, "c": count, "len": len(data), "runs": decode_byte_runs(data, sector * ssize, self.probe),
-              "tell": self.s.tell()}
+              "tell": int(self.s.tell())}
         self.events.append(ev)
         return ev
 
